@@ -1,12 +1,18 @@
 #!/bin/sh
 # merges an agent's branches (<id> in /verif and /repo) into main and removes its worktrees
-set -e
 ID=$1; id=$(echo $ID | tr A-Z a-z)
-if [ -n "$(git -C /repo log --oneline main..$id)" ]; then git -C /repo cherry-pick main..$id; fi
-git -C /verif merge --no-edit $id || { echo MERGE CONFLICT; exit 1; }
-git -C /verif worktree remove --force /work/$ID/verif || true
-git -C /repo worktree remove --force /work/$ID/repo || true
-git -C /verif branch -D $id || true
-git -C /repo branch -D $id || true
+if [ -n "$(git -C /repo log --oneline main..$id)" ]; then git -C /repo cherry-pick main..$id || { echo REPO CHERRY-PICK CONFLICT; exit 1; }; fi
+cd /verif
+git merge --no-edit $id || {
+  # generated files conflict harmlessly
+  git rm -q --cached lean/Main.lean 2>/dev/null
+  if git status --short | grep -q '^\(UU\|AA\|DU\|UD\) '; then git status --short | grep '^\(UU\|AA\|DU\|UD\) '; echo MERGE CONFLICT; exit 1; fi
+  git commit -qm "merge $ID"
+}
+git rm -q --cached lean/Main.lean 2>/dev/null && git commit -qm "untrack Main.lean"
+git worktree remove --force /work/$ID/verif
+git -C /repo worktree remove --force /work/$ID/repo
+git branch -D $id; git -C /repo branch -D $id
 rm -rf /work/$ID
+python3 gen_main.py
 echo merged $ID
